@@ -353,6 +353,8 @@ Step_C08 ==
     /\ \A r \in Issued : /\ r[1] \in DOMAIN ctx
                          /\ req'[r].rh = height
                          /\ req'[r].exp = height + ctx[r[1]].timeout
+                         \* its designated provider is the one it is pending for
+                         /\ \E a \in actBind' : a[4] = r /\ a[2] = req'[r].prov /\ a[3] = req'[r].exp
     /\ (e.name = "Respond") =>
          LET r == Rid(e) IN
          IF e.ok
